@@ -39,6 +39,23 @@ bool afterMisuse(Interp& I)
     return true;
 }
 
+// do the live forests among `fs` (same domain assumed by the caller where it matters) disagree on the variable order?
+// Then a call has a second, different reason to be rejected (INVALID_OPERATION) and the kinds that assert one
+// specific family of codes skip themselves; `misuse order` / `orderun` assert that case on its own.
+bool ordersDiffer(Interp& I, const std::vector<int>& fs)
+{
+    std::map<int, std::vector<int>> byDom;
+    for (int f : fs) {
+        if (!I.okForest(f)) continue;
+        std::vector<int> o(size_t(I.W.domOf(f).K()) + 1);
+        I.W.F[size_t(f)]->getVariableOrder(o.data());
+        auto it = byDom.find(I.W.fs[size_t(f)].dom);
+        if (it == byDom.end()) byDom[I.W.fs[size_t(f)].dom] = o;
+        else if (it->second != o) return true;
+    }
+    return false;
+}
+
 long liveNodes(Interp& I)
 {
     long n = 0;
@@ -78,6 +95,7 @@ static bool doMisuse(Interp& I, const Step& s)
         if (isArith) mismatch = mismatch || SA.label != SC.label || SB.label != SC.label || SA.range != SC.range || SB.range != SC.range;
         if (isSet) mismatch = mismatch || SA.label != 'M' || SB.label != 'M' || SC.label != 'M';
         if (!mismatch) { I.skip("misuse-not-a-mismatch"); return true; }
+        if (ordersDiffer(I, {W.slots[size_t(a)].f, W.slots[size_t(b)].f, fc})) { I.skip("misuse-order-differs-too"); return true; }
         I.R.labels.add(xdom ? "misuse.cross_domain" : "misuse.type_mismatch");
         dd_edge c(W.F[size_t(fc)]);
         if (!mustThrow(I, "apply(" + op + ") on mismatched operands", MISMATCH, [&]() { BF->apply(*W.slots[size_t(a)].e, *W.slots[size_t(b)].e, c); })) return false;
@@ -96,6 +114,7 @@ static bool doMisuse(Interp& I, const Step& s)
         if (op == "COMPLEMENT") mismatch = mismatch || SA.range != 'B' || SC.range != 'B';
         if (op == "DIST_INC") mismatch = mismatch || SA.range != 'I' || SC.range != 'I' || SA.label != 'M' || SC.label != 'M';
         if (!mismatch) { I.skip("misuse-not-a-mismatch"); return true; }
+        if (ordersDiffer(I, {W.slots[size_t(a)].f, fc})) { I.skip("misuse-order-differs-too"); return true; }
         I.R.labels.add(SA.dom != SC.dom ? "misuse.cross_domain" : "misuse.type_mismatch");
         dd_edge c(W.F[size_t(fc)]);
         if (!mustThrow(I, "apply(" + op + ") on mismatched operands", MISMATCH, [&]() { UFc->apply(*W.slots[size_t(a)].e, c); })) return false;
@@ -110,6 +129,7 @@ static bool doMisuse(Interp& I, const Step& s)
         if (!I.liveSlot(a) || !I.liveSlot(b) || !I.okForest(fo)) { I.skip("misuse-operands"); return true; }
         const int fa = W.slots[size_t(a)].f, fb = W.slots[size_t(b)].f;
         if (fo == fa) { I.skip("misuse-same-forest"); return true; }
+        if (ordersDiffer(I, {fa, fb})) { I.skip("misuse-order-differs-too"); return true; }
         binary_factory* BF = binaryFactory(op);
         if (!BF) { I.skip("misuse-op"); return true; }
         binary_operation* bop = nullptr;
@@ -197,16 +217,40 @@ static bool doMisuse(Interp& I, const Step& s)
         const int a = toInt(s[3]), b = toInt(s[4]);
         if (!I.liveSlot(a) || !I.liveSlot(b)) { I.skip("misuse-operands"); return true; }
         const int fa = W.slots[size_t(a)].f, fb = W.slots[size_t(b)].f;
-        if (W.fs[size_t(fa)].dom != W.fs[size_t(fb)].dom) { I.skip("misuse-domain"); return true; }
-        std::vector<int> oa(size_t(W.domOf(fa).K()) + 1), ob(oa.size());
-        W.F[size_t(fa)]->getVariableOrder(oa.data()); W.F[size_t(fb)]->getVariableOrder(ob.data());
-        if (oa == ob) { I.skip("misuse-not-a-mismatch"); return true; }
+        // optional result forest (default: the first operand's); the misuse is any of the three orders differing
+        const int fc = s.size() > 5 ? toInt(s[5]) : fa;
+        if (!I.okForest(fc)) { I.skip("misuse-operands"); return true; }
+        if (W.fs[size_t(fa)].dom != W.fs[size_t(fb)].dom || W.fs[size_t(fa)].dom != W.fs[size_t(fc)].dom) { I.skip("misuse-domain"); return true; }
+        std::vector<int> oa(size_t(W.domOf(fa).K()) + 1), ob(oa.size()), oc(oa.size());
+        W.F[size_t(fa)]->getVariableOrder(oa.data()); W.F[size_t(fb)]->getVariableOrder(ob.data()); W.F[size_t(fc)]->getVariableOrder(oc.data());
+        if (oa == ob && oa == oc) { I.skip("misuse-not-a-mismatch"); return true; }
         binary_factory* BF = binaryFactory(op);
         if (!BF) { I.skip("misuse-op"); return true; }
         I.R.labels.add("misuse.variable_order");
-        dd_edge c(W.F[size_t(fa)]);
+        I.R.labels.add(oa != ob ? "misuse.order_operands_differ" : "misuse.order_result_differs");
+        dd_edge c(W.F[size_t(fc)]);
         if (!mustThrow(I, "apply(" + op + ") across forests with different variable orders", {int(error::INVALID_OPERATION), int(error::TYPE_MISMATCH), int(error::NOT_IMPLEMENTED)},
                        [&]() { BF->apply(*W.slots[size_t(a)].e, *W.slots[size_t(b)].e, c); })) return false;
+        return afterMisuse(I);
+    }
+    if (kind == "orderun") {
+        // misuse orderun OP a fc : unary operation into a forest with a different variable order
+        if (s.size() < 5) { I.skip("misuse-short"); return true; }
+        const std::string& op = s[2];
+        const int a = toInt(s[3]), fc = toInt(s[4]);
+        if (!I.liveSlot(a) || !I.okForest(fc)) { I.skip("misuse-operands"); return true; }
+        const int fa = W.slots[size_t(a)].f;
+        if (W.fs[size_t(fa)].dom != W.fs[size_t(fc)].dom) { I.skip("misuse-domain"); return true; }
+        std::vector<int> oa(size_t(W.domOf(fa).K()) + 1), oc(oa.size());
+        W.F[size_t(fa)]->getVariableOrder(oa.data()); W.F[size_t(fc)]->getVariableOrder(oc.data());
+        if (oa == oc) { I.skip("misuse-not-a-mismatch"); return true; }
+        unary_factory* UFc = unaryFactory(op);
+        if (!UFc) { I.skip("misuse-op"); return true; }
+        I.R.labels.add("misuse.variable_order");
+        I.R.labels.add("misuse.order_unary");
+        dd_edge c(W.F[size_t(fc)]);
+        if (!mustThrow(I, "apply(" + op + ") into a forest with a different variable order", {int(error::INVALID_OPERATION), int(error::TYPE_MISMATCH), int(error::NOT_IMPLEMENTED)},
+                       [&]() { UFc->apply(*W.slots[size_t(a)].e, c); })) return false;
         return afterMisuse(I);
     }
     if (kind == "usedead") {
